@@ -398,6 +398,8 @@ class LAGenericMacro(Macro):
         for coeff, dis_eq in zip(coeffs, dis_eq_step2): 
             lhs, rhs = dis_eq.args
             if not dis_eq.is_equals(): # coeff should be absoluted
+                if eval_const(coeff) == 0:
+                    raise VeriTException("la_generic", "coefficient of an inequality must not be zero")
                 abs_coeff = hol_term.Real(abs(eval_const(coeff)))
             else:
                 abs_coeff = coeff
